@@ -137,6 +137,23 @@ COMBO_BODIES = ["plain", "defs", "pktab"]
 FORBIDDEN_AFTER = {"ORGANIZATION INDEX": ("TABLESPACE", "STORAGE")}
 
 
+NCAT = len(CAT)
+# wave 7 scale entries (never combined): literal-valued clauses whose literal has every length in LENS, plain and with a comma followed by
+# one long word; two clauses whose literal holds an escape sequence (judged only differentially, behind a big filler script)
+LENS = sorted(set(list(range(1, 40, 2)) + list(range(40, 720, 13)) + [31, 32, 33, 63, 64, 65, 127, 128, 129, 255, 256, 257, 511, 512, 513, 600]))
+_TXT = "lorem_ipsum/dolor-sit.amet:consectetur " * 20
+_WORD = "customer_account_identifier_normalized_v2_" * 20
+for _n in LENS:
+    for _lit in ("'" + (_TXT[:_n].rstrip() or "x") + "'", "'id," + _WORD[:_n] + "'"):
+        CAT.append(["hql", "LOCATION " + _lit, {"location": _lit}, {"table_properties": {"location": _lit}}])
+        CAT.append(["hql", "COMMENT " + _lit, {"comment": _lit}, {"comment": _lit}])
+        CAT.append(["hql", "TBLPROPERTIES ('k1'=%s, 'k2'='v2')" % _lit, {"tblproperties": {"'k1'": _lit, "'k2'": "'v2'"}}, {"table_properties": {"tblproperties": {"'k1'": _lit, "'k2'": "'v2'"}}}])
+        CAT.append(["snowflake", "COMMENT=" + _lit, {"comment": _lit}, {"comment": _lit}])
+ESC = [["hql", "TBLPROPERTIES ('line.delim'='\\n', 'k2'='v2')"], ["hql", "FIELDS TERMINATED BY '\\t'"], ["hql", "LOCATION 's3://b/p'"], ["mysql", "ENGINE=InnoDB"],
+       ["hql", "TBLPROPERTIES ('k1'='v1', 'k2'='v2')"]]
+FILL = "".join("CREATE TABLE fill_%d (id int NOT NULL, label varchar(%d) DEFAULT 'f%d', PRIMARY KEY (id));\n" % (i, 10 + i % 7, i) for i in range(2600))
+
+
 def bounds(tier):
     return {"clauses": len(CAT), "bodies": len(BODIES), "modes": "owner + sql", "clauses_combined": 3 if tier == "thorough" else 2}
 
@@ -154,11 +171,18 @@ def top_keys(delta):
 def gen_cases(tier):
     cases = []
     for bn in BODIES:
-        for ci, c in enumerate(CAT):
+        for ci, c in enumerate(CAT[:NCAT]):
             for m in (c[0], "sql"):
                 cases.append({"body": bn, "clauses": [ci], "mode": m})
+    for ci in range(NCAT, len(CAT)):
+        for m in (CAT[ci][0], "sql"):
+            cases.append({"body": "plain", "clauses": [ci], "mode": m})
+    # a clause-carrying table behind 1 KiB .. 256 KiB of other statements: its clause delta must be the one it has alone
+    for k in range(10, 19 if tier != "thorough" else 21):
+        for ei in range(len(ESC)):
+            cases.append({"fill": k, "esc": ei, "mode": ESC[ei][0], "heavy": k >= 16})
     by_mode = {}
-    for ci, c in enumerate(CAT):
+    for ci, c in enumerate(CAT[:NCAT]):
         by_mode.setdefault(c[0], []).append(ci)
     for mode, idxs in by_mode.items():
         for k in ((2, 3) if tier == "thorough" else (2,)):
@@ -190,6 +214,8 @@ def gen_cases(tier):
 
 
 def build(case):
+    if "fill" in case:
+        return "-- %d bytes of CREATE TABLE fill_<i> statements, then:\n" % 2 ** case["fill"] + BODIES["plain"] + " " + ESC[case["esc"]][1] + ";"
     if "two" in case:
         i, j = case["two"]
         end = "" if case.get("nosemi") else ";"
@@ -211,6 +237,8 @@ def merge(deltas):
 
 def features(case):
     f = []
+    if "fill" in case:
+        return []
     if "two" in case:
         return ["two-tables:" + CAT[case["two"][0]][0]]
     texts = [CAT[i][1] for i in case["clauses"]]
@@ -255,7 +283,29 @@ def _two(case):
     return {"diffs": D, "nontrivial": True, "outcome": "two:%s" % m}
 
 
+def _fill(case):
+    m = case["mode"]
+    fill = FILL if case["fill"] <= 18 else FILL * 8
+    pre = fill[:2 ** case["fill"]].rsplit("\n", 1)[0] + "\n"
+    stmt = BODIES["plain"] + " " + ESC[case["esc"]][1] + ";"
+    a = run_ddl(stmt, None, {"output_mode": m})
+    r = run_ddl(pre + stmt, None, {"output_mode": m})
+    if a[0] != "ok" or len(a[1]) != 1:
+        return {"diffs": [diff("clause table alone", "base-not-parsed", "one table", short(a, 200))], "outcome": "base"}
+    if r[0] != "ok":
+        return {"diffs": [diff("run", "raises:" + r[1], "result", r[2])], "outcome": "exc"}
+    D = []
+    if len(r[1]) != pre.count("\n") + 1:
+        D.append(diff("entities of the big script", "table-missing", pre.count("\n") + 1, len(r[1])))
+    elif r[1][-1] != a[1][0]:
+        from ..util import vdiff
+        D.append(vdiff("clause table behind %d bytes of other statements" % len(pre), "clause-value-differs-in-big-script", a[1][0], r[1][-1]))
+    return {"diffs": D, "nontrivial": True, "outcome": "fill:%d" % (case["fill"] // 4)}
+
+
 def evaluate(case):
+    if "fill" in case:
+        return _fill(case)
     if "two" in case:
         return _two(case)
     m = case["mode"]
